@@ -152,9 +152,22 @@ def index_keys(tsnap):
     return set(index_key(ix) for ix in tsnap['indexes'])
 
 
-def diff_table(name, got, exp, compare_default=False):
-    """Discrepancy items between two table snapshots (got=evolved, exp=fresh)."""
+def diff_table(name, got, exp, compare_default=False, count_duplicates=False):
+    """Discrepancy items between two table snapshots (got=evolved, exp=fresh).
+    count_duplicates: also report an index definition (columns, uniqueness,
+    predicate) that exists a different number of times on the two sides (only
+    meaningful when both sides were produced by the same code)."""
     items = []
+    if count_duplicates:
+        import collections
+        gn = collections.Counter(index_key(ix) for ix in got['indexes'])
+        en = collections.Counter(index_key(ix) for ix in exp['indexes'])
+        for k in sorted(set(gn) & set(en), key=repr):
+            if gn[k] != en[k]:
+                items.append({'type': 'INDEX_COUNT_DIFFERS', 'table': name,
+                              'cols': [c for c, _d in k[0]],
+                              'unique': k[1], 'where': k[2],
+                              'got': gn[k], 'exp': en[k]})
     gc, ec = got['columns'], exp['columns']
     for c in sorted(set(gc) | set(ec)):
         if c not in gc:
@@ -209,7 +222,7 @@ def diff_table(name, got, exp, compare_default=False):
     return items
 
 
-def diff_schema(got, exp):
+def diff_schema(got, exp, count_duplicates=False):
     items = []
     for t in sorted(set(got) | set(exp)):
         if t not in got:
@@ -217,7 +230,8 @@ def diff_schema(got, exp):
         elif t not in exp:
             items.append({'type': 'EXTRA_TABLE', 'table': t})
         else:
-            items.extend(diff_table(t, got[t], exp[t]))
+            items.extend(diff_table(t, got[t], exp[t],
+                                    count_duplicates=count_duplicates))
     return items
 
 
